@@ -9,6 +9,7 @@ claims={
  "C03":("For symbolic well-formed images and symbolic signature bytes/length, AppendSignature+Bytes yields exactly the specified signed file (original bytes, padding, table, WIN_CERTIFICATE header, directory entry spanning to end of file), also after several in-memory appends.","2 C03"),
  "C07":("All well-formed signature-database streams up to the byte bound (every byte and the length symbolic, restricted only by a reference recogniser of the UEFI layout) are accepted, decode to exactly the specified lists/owners/data, and re-encode to the same bytes (Bytes and Marshal/Unmarshal routes).","2 C07"),
  "C08":("For every byte string up to the bound (every byte and the length symbolic): if decoding succeeds, the lists tile the whole input, satisfy the EFI_SIGNATURE_LIST size equations and hold exactly the input bytes at the specified offsets; decided by SMT on every path.","2 C08"),
+ "C09":("One inductive step from an arbitrary valid database state (symbolic owners/data, enumerated shapes): append and remove change the ordered entry collection exactly as specified (PEM stored as DER, errors change nothing, emptied list dropped), membership queries agree with the collection, and the representation invariant and encoded length hold afterwards.","2 C09"),
  "C10":("Descriptor and WIN_CERTIFICATE decoding consumes exactly the declared length, recovers every field, leaves the payload, and both round trips are identities, for every byte string up to the bound (all fields symbolic).","2 C10"),
  "C14":("One harness per variable/key-file decoder entry point on a fully symbolic byte string: on every path no panic, no log.Fatal/os.Exit, no allocation above 8*len+8192, termination within the unwinding bounds; violations are replayed natively (panic / exit status / measured allocation).","2 C14"),
  "C17":("GUID conversions decided for all 2^128 values in one symbolic run (Format, both parse directions, byte forms, in-structure layout, equality).","2 C17"),
